@@ -256,6 +256,12 @@ class C18(core.Check):
                 cfg["uncomp"] = True
                 cfg["chunk_hash"] = r.choice([1, 2])
             seg = [r.choice([1000, 4096, 70000])] + (["e"] if cfg["manual"] else [])
-            out.append({"w": "file", "cfg": cfg, "kind": r.choice(["text", "random", "license", "mixed"]), "size": r.choice([0, 1, 5000, 150000, 400000]), "cseed": i,
+            size_ = r.choice([0, 1, 5000, 150000, 400000])
+            if i % 4 == 2:
+                # a checksum option set once more in the middle of the first chunk (accepted or refused - but alike under both builds)
+                size_ = r.choice([5000, 150000])
+                cfg["late"] = {"first": r.choice([1, 150, 4000]), "n": size_, "opts": [r.choice([(gen.HASH_CHUNK_TYPE, r.randrange(4)), (gen.HASH_FULL_TYPE, r.randrange(4)),
+                                                                                                 (gen.UNCOMP_HEADER, 1), (gen.HASH_CHUNK_TYPE, 0)])]}
+            out.append({"w": "file", "cfg": cfg, "kind": r.choice(["text", "random", "license", "mixed"]), "size": size_, "cseed": i,
                         "seg": seg, "sizes": [r.choice([1000, 4096, 100000])], "zhs": ctx["zhs"], "noise": i % 3 == 1})
         return out
